@@ -121,7 +121,7 @@ func runC13(r *mon.Run) {
 			cases = append(cases, c13case{1, 1, v, false}, c13case{-1, 2, v, false})
 		}
 	}
-	for i := 0; i < r.Pick(150, 3000); i++ {
+	for i := 0; i < r.Pick(150, 9000); i++ {
 		bits := 1 + rng.IntN(256)
 		v := randBig(rng, bits)
 		if rng.IntN(3) == 0 {
@@ -154,7 +154,7 @@ func runC13(r *mon.Run) {
 		c13Single(r, key, jr, c, table, i)
 	})
 	// compositions
-	ncomp := r.Pick(120, 2500)
+	ncomp := r.Pick(120, 6000)
 	cseeds := make([]uint64, ncomp)
 	for i := range cseeds {
 		cseeds[i] = rng.Uint64()
